@@ -1,5 +1,5 @@
 import FeatModel.Model.Proto
-import FeatModel.Model.LA.Alias
+import FeatModel.Model.LA.Rebuild
 /-! line-protocol driver for the C02 models (chains of conversion / clone / transpose / permute / rebuild);
     the line format is documented in harness/c02/main.cpp -/
 open FeatModel FeatModel.Proto FeatModel.LA
@@ -83,6 +83,7 @@ def opP : P (Option Op) := do
     | 1 => pure (some (.clone .layout))
     | 2 => pure (some (.clone .weak))
     | 3 => pure (some (.clone .deep))
+    | 4 => pure (some (.clone .allocate))
     | _ => pure none
   | "layout" => pure (some .layout)
   | "graph" => pure (some .graph)
@@ -131,11 +132,36 @@ def prefixOf (m : Mat) : Op → String
   | .layout => showK m .layout
   | _ => ""
 
+/-- extension operations (`Mat.stepX`); `perm` on a blocked matrix and `tri` on a dense one are routed here -/
+def xopP (m : Mat) (op : String) : P (Option XOp) := do
+  match op, m with
+  | "it", _ => pure (some .itx)
+  | "dt", _ => pure (some .dtx)
+  | "layoutz", _ => pure (some .layoutz)
+  | "layouta", _ => let k ← nat; pure (some (.layouta k))
+  | "graphz", _ => pure (some .graphz)
+  | "perm", .bcsr _ => let p ← natList; let q ← natList; pure (some (.bperm p.toArray q.toArray))
+  | "tri", .dense _ => pure (some .triDense)
+  | _, _ => pure none
+
+def prefixX (m : Mat) : XOp → String
+  | .layoutz | .layouta _ => "AL1 " ++ showK m .layout
+  | _ => ""
+
 def stepsP : Nat → Mat → String → P String
   | 0, _, acc => pure acc
   | n + 1, m, acc => do
     let ts ← get
     let name := ts.headD ""
+    match (← (do let _ ← tok; xopP m name)) with
+    | some x =>
+      match m.stepX roundDt x with
+      | .ok t (some src) => stepsP n t (acc ++ "| " ++ prefixX m x ++ "S " ++ dump src ++ " " ++ dump t ++ " ")
+      | .ok t none => stepsP n t (acc ++ "| " ++ prefixX m x ++ dump t ++ " ")
+      | .abort => pure "ABORT"
+      | .bad => pure "BAD-OP"
+    | none =>
+    set ts
     match (← (do let _ ← tok; aopP name)) with
     | some none => pure "BAD-OP"
     | some (some a) =>
@@ -158,9 +184,25 @@ def stepsP : Nat → Mat → String → P String
         | .abort => pure "ABORT"
         | .bad => pure "BAD-OP"
 
+def vecStepsP : Nat → Array Rat → String → P String
+  | 0, _, acc => pure acc
+  | n + 1, x, acc => do
+    let op ← tok
+    if op != "vperm" then pure "BAD-OP" else
+    let p ← natList
+    match vecPermute x p.toArray with
+    | some y => vecStepsP n y (acc ++ "| vec " ++ showRatsL y.toList ++ " ")
+    | none => pure "ABORT"
+
 def handle : P String := do
   let it ← nat
   if it != 32 && it != 64 then throw "bad index type"
+  if (← get).headD "" == "vec" then
+    let _ ← tok
+    let x ← ratList
+    let n ← nat
+    vecStepsP n x.toArray ("| vec " ++ showRatsL x ++ " ")
+  else
   let m ← initP
   let n ← nat
   stepsP n m ("| " ++ dump m ++ " ")
